@@ -9,7 +9,9 @@ RULE = ("engine A with the transcript of ninja's stdout/stderr captured per invo
         "-v; every schedule incl. simultaneous completions. A transcript parser checks per command: visible output appears "
         "exactly once, contiguous, directly after its status line (failed: after FAILED [code] outputs + full command line); "
         "console commands: nothing between status line and their own output; counters: finished <= total, started <= total, "
-        "finished <= started, running = started - finished, remaining = total - started, after exit 0 finished = total")
+        "finished <= started, running = started - finished, remaining = total - started, after exit 0 finished = total; in "
+        "an invocation that was not interrupted no started command ends unreported or is left running (also when another "
+        "command cannot be started or a result cannot be processed)")
 
 
 def fams(tier):
